@@ -242,11 +242,11 @@ func naturalLoops(fn *ssa.Function) []*natLoop {
 
 // sourceReaders: calls that consume input and report its end as an error.
 var sourceReaders = map[string]bool{
-	"(*bufio.Reader).ReadBytes":  true,
-	"(*bufio.Reader).ReadString": true,
-	"(*bufio.Reader).Peek":       true,
-	"(*bufio.Scanner).Scan":      true,
-	"io.ReadFull":                true,
+	"(*bufio.Reader).ReadBytes":                    true,
+	"(*bufio.Reader).ReadString":                   true,
+	"(*bufio.Reader).Peek":                         true,
+	"(*bufio.Scanner).Scan":                        true,
+	"io.ReadFull":                                  true,
 	"(*" + pkgFormat + ".StanzaReader).ReadStanza": true,
 	"(*" + pkgPlugin + ".ClientUI).readStanza":     true,
 }
@@ -359,9 +359,9 @@ func checkLoops(p *Program, r *Result) {
 
 // loopTable: progress loops whose termination is a value argument.
 var loopTable = map[string]string{
-	"(*" + pkgStream + ".Writer).Write":                 "each iteration copies n >= 1 bytes of the caller's p unless the buffer is full, in which case it is flushed (emptied) first; p shrinks to empty",
+	"(*" + pkgStream + ".Writer).Write":                      "each iteration copies n >= 1 bytes of the caller's p unless the buffer is full, in which case it is flushed (emptied) first; p shrinks to empty",
 	"(*" + pkgFormat + ".WrappedBase64Encoder).writeWrapped": "each iteration writes toWrite >= 1 bytes of p to a bytes.Buffer (which accepts everything); p shrinks to empty",
-	pkgBech32 + ".convertBits":                          "inner loop: bits decreases by tobits > 0 until bits < tobits",
+	pkgBech32 + ".convertBits":                               "inner loop: bits decreases by tobits > 0 until bits < tobits",
 }
 
 func monotone(ph *ssa.Phi) bool {
